@@ -444,6 +444,8 @@ def _recipe(skel, rname, tier):
   # activation-only ops cannot take (they keep the static-range rule)
   recs['srq8_then_catchall_WO'] = [P.rule('(.*)', '*', 'SRQ8'),
                                    P.rule('.*', '*', 'WO')]
+  # an operator-type selector
+  recs['optype_FC_SRQ8'] = [P.rule('.*', 'FULLY_CONNECTED', 'SRQ8')]
   return recs[rname]
 
 
@@ -543,6 +545,7 @@ def replay(c):
   sel = selected_runtime_tensors(model, rm, sd.subgraphIndex)
   cur = {}
   for s in data:
+    it.reset_all_variables()  # every sample runs on a freshly reset model
     runner(**s)
     for ti in sel:
       x = it.get_tensor(ti, sd.subgraphIndex)
